@@ -144,6 +144,23 @@ theorem C13_cex_union_discriminator :
     let v : UnionS := { vars := [rA, rB], disc := some "kind".toList, mapped := true }
     shareNamedU u v = true ∧ shareInlineU u v = false ∧ renderU u ≠ renderU v ∧ KnownUnionDiscriminator u v = true := by decide +kernel
 
+/-- a discriminator WITHOUT mapping whose members carry `const` tags is a tagged enum too: the inline registry key
+(refs + discriminator property) keeps it apart from the plain union over the same refs - the property name has to
+be part of the key whether or not a mapping is written - while the component look-up (refs only) does not -/
+theorem C13_unionkey_implicit_mapping :
+    let u : UnionS := { vars := [rA, rB] }
+    let v : UnionS := { vars := [rA, rB], disc := some "kind".toList, implicit := true }
+    shareInlineU u v = false ∧ shareNamedU u v = true ∧ renderU u ≠ renderU v ∧ KnownUnionDiscriminator u v = true := by decide +kernel
+
+/-- unions that share through the inline registry dispatch on the same tag as soon as they agree on HAVING a
+(written or implicit) mapping; with the pool fixed that is a function of the refs and the property, i.e. of the key -/
+theorem C13_inline_key_tag (a b : UnionS) (h : shareInlineU a b = true)
+    (hm : (a.mapped || a.implicit) = (b.mapped || b.implicit)) : a.tag = b.tag := by
+  have hd : a.disc = b.disc := by
+    simp only [shareInlineU, Bool.and_eq_true, beq_iff_eq] at h
+    exact h.2
+  simp only [UnionS.tag, hm, hd]
+
 /-- `oneOf` vs `anyOf`, descriptions, and an un-mapped discriminator are invisible to both the key and the
 wire shape: sharing across them is sound (the design note's `KnownOneOfVsAnyOf` is not a defect class). -/
 theorem C13_union_benign :
